@@ -160,9 +160,14 @@ pub fn run_case(_ctx: &Ctx, case: &Value, tag: usize, rep: &mut Report, mb: &mut
                     }
                 }
                 Err(e) => {
-                    // grammars that cannot roll back report so; nothing else is an accepted failure
+                    // a rollback of at most the committed tokens on an engine that is not in an error state must succeed:
+                    // a refusal leaves the engine holding tokens it was asked to drop
                     let msg = eng::err_class(&e.to_string());
-                    rep.skip(&format!("rollback-error:{msg}"));
+                    if msg.contains("parser error") || msg.contains("not initialized") || msg.contains("Too many") {
+                        rep.skip(&format!("rollback-error:{msg}"));
+                    } else {
+                        rep.fail("oracle", "c12:rollback-refused", format!("step {step}: rollback of {k} of {} committed tokens refused: {msg}", toks.len()), repro.clone());
+                    }
                     break;
                 }
             }
